@@ -28,6 +28,8 @@ def run(ctx):
                 items.append(f'r:{rnd.randint(0, i)}')      # run some earlier program between builds (residue of executions)
         for i in range(len(srcs)):
             items.append(f'r:{i}')
+        for i in range(len(srcs)):
+            items.append(f'r:{i}')         # and once more: a second run in the same object, after every other program has run
         cid = str(len(cases))
         cases.append(['MULTI', cid, store, progsuite.HOSTS[1]] + items)
         seqs.append((cid, store, srcs))
@@ -83,6 +85,9 @@ def run(ctx):
             if not got_items:
                 continue
             got = val(got_items[-1].split(':', 1)[1])
+            if len(got_items) >= 2 and val(got_items[-2].split(':', 1)[1]) != got and not any('steplimit' in x for x in runs):
+                ctx.fail('oracle', c, impl=got_items[-2] + ' | ' + got_items[-1], expect='the same result from both final runs', note=f'program {i} ({s!r}) gives different results when it is run twice in the shared object')
+                stats['different'] = stats.get('different', 0) + 1
             # the harness keeps at most 400 host-call records per object: after a run that was cut at the step limit the
             # trace of later runs may be truncated, so only the value is compared then
             if any('steplimit' in x for x in runs) and want[0] == 'ok' and got[0] == 'ok':
